@@ -14,11 +14,11 @@
 //! with every f64 printed exactly as `<mantissa>:<exp2>` (value = m * 2^e),
 //! `inf`, `-inf` or `nan`.
 //!
-//! Mode `run`: `<sample_count> <sample_size|t> <threads> <opt/pre/inp/post counter kinds> <alloc> <seed>`: a real `Bencher`
+//! Mode `run`: `<sample_count> <sample_size|t> <threads> <opt/pre/inp/post counter kinds> <alloc behaviour> <seed>`: a real `Bencher`
 //! run (OS timer; this binary installs `AllocProfiler` as the global allocator so that
 //! allocation info is recorded per sample), then `compute_stats` on what the run left
 //! behind.  Prints `IN <the recorded samples as a stats case> EXP <counts of the inputs each
-//! sample was given> OUT <stats line>`: the model is driven by the recording.
+//! sample was given> TAL <allocator tally rows of each sample's timed section> OUT <stats line>`: the model is driven by the recording.
 //!
 //! Mode `periter`: `<sample_size> <c0,c1,..>`: runs a real `Bencher` with
 //! `with_inputs` + `input_counter` over the given per-input counts (one sample)
@@ -96,6 +96,70 @@ fn join<T: ToString>(v: &[T]) -> String {
     v.iter().map(|x| x.to_string()).collect::<Vec<_>>().join(",")
 }
 
+/// A raw heap block obtained from the global allocator (= `AllocProfiler`), so that the
+/// allocator operations of a timed section are exactly known.
+struct Buf {
+    ptr: *mut u8,
+    size: usize,
+}
+unsafe impl Send for Buf {}
+unsafe impl Sync for Buf {}
+impl Buf {
+    fn new(size: usize) -> Buf {
+        let ptr = unsafe { std::alloc::alloc(std::alloc::Layout::from_size_align(size, 1).unwrap()) };
+        assert!(!ptr.is_null());
+        Buf { ptr, size }
+    }
+    fn resize(&mut self, new_size: usize) {
+        let ptr = unsafe {
+            std::alloc::realloc(self.ptr, std::alloc::Layout::from_size_align(self.size, 1).unwrap(), new_size)
+        };
+        assert!(!ptr.is_null());
+        self.ptr = ptr;
+        self.size = new_size;
+    }
+}
+impl Drop for Buf {
+    fn drop(&mut self) {
+        unsafe { std::alloc::dealloc(self.ptr, std::alloc::Layout::from_size_align(self.size, 1).unwrap()) }
+    }
+}
+
+/// Input of the benchmarked function: the value `n` (what the input counters count) and, for
+/// the behaviours that release or resize memory acquired outside the timed section, a block
+/// allocated by the generator.
+struct In {
+    n: usize,
+    buf: Option<Buf>,
+}
+
+/// What the benchmarked function does with the allocator for input value `n` under `mode`:
+/// `0` nothing, `a` alloc+free, `o` alloc only (freed with the output, after the timed section),
+/// `f` free only (block from the generator), `s` shrink only, `g` grow only, `m` one of these per
+/// input, chosen by `n % 6`.
+fn behaviour(mode: char, n: usize) -> char {
+    match mode {
+        '1' => 'a',
+        'm' => ['0', 'a', 'o', 'f', 's', 'g'][n % 6],
+        c => c,
+    }
+}
+fn block_size(n: usize) -> usize {
+    8 * n + 16
+}
+/// Tally rows `[grow, shrink, alloc, dealloc]` x `(count, size)` of one call.
+fn rows_of(mode: char, n: usize) -> [u64; 8] {
+    let z = block_size(n) as u64;
+    match behaviour(mode, n) {
+        'a' => [0, 0, 0, 0, 1, z, 1, z],
+        'o' => [0, 0, 0, 0, 1, z, 0, 0],
+        'f' => [0, 0, 0, 0, 0, 0, 1, z],
+        's' => [0, 0, 1, z - z / 2, 0, 0, 0, 0],
+        'g' => [1, z, 0, 0, 0, 0, 0, 0],
+        _ => [0; 8],
+    }
+}
+
 const KINDS: [char; 4] = ['b', 'c', 'y', 'i'];
 /// Count of an input value `n` for kind index `k` (what the `input_counter` closures return).
 const MULT: [u64; 4] = [1, 2, 5, 3];
@@ -123,7 +187,7 @@ fn run(line: &str) -> String {
     let spec: Vec<&str> = t[3].split('/').collect();
     assert!(spec.len() == 4);
     let (opt, pre, inp, post) = (kinds_of(spec[0]), kinds_of(spec[1]), kinds_of(spec[2]), kinds_of(spec[3]));
-    let alloc: bool = t[4] == "1";
+    let mode: char = t[4].chars().next().unwrap();
     let seed: u64 = t[5].parse().unwrap();
     let konst = |base: u32, k: usize| -> u32 { base + 7 * k as u32 + (seed % 5) as u32 };
 
@@ -147,22 +211,37 @@ fn run(line: &str) -> String {
     let uniform = threads > 1 || sample_size.is_none();
     let next = AtomicU64::new(seed);
     let gen = || {
-        if uniform {
-            input_value(seed)
-        } else {
-            input_value(next.fetch_add(1, Ordering::Relaxed))
-        }
+        let n = if uniform { input_value(seed) } else { input_value(next.fetch_add(1, Ordering::Relaxed)) };
+        let buf = match behaviour(mode, n) {
+            'f' | 's' | 'g' => Some(Buf::new(block_size(n))),
+            _ => None,
+        };
+        In { n, buf }
     };
-    let work = move |n: usize| -> usize {
-        if alloc {
-            let mut v: Vec<u8> = Vec::with_capacity(n);
-            v.push(1);
-            if n % 3 == 0 {
-                v.reserve(4 * n);
+    // The output is dropped after the timed section.
+    let work = move |mut input: In| -> (usize, Option<Buf>) {
+        let n = input.n;
+        match behaviour(mode, n) {
+            'a' => {
+                drop(divan::black_box(Buf::new(block_size(n))));
+                (n, None)
             }
-            v.len() + n
-        } else {
-            n
+            'o' => (n, Some(Buf::new(block_size(n)))),
+            'f' => {
+                drop(input.buf.take());
+                (n, None)
+            }
+            's' => {
+                let mut b = input.buf.take().unwrap();
+                b.resize(block_size(n) / 2);
+                (n, Some(b))
+            }
+            'g' => {
+                let mut b = input.buf.take().unwrap();
+                b.resize(2 * block_size(n));
+                (n, Some(b))
+            }
+            _ => (n, None),
         }
     };
     let dump = v::run_bencher(&cfg, &|b: divan::Bencher| {
@@ -178,10 +257,10 @@ fn run(line: &str) -> String {
         let mut b = b.with_inputs(gen);
         for &k in &inp {
             b = match k {
-                0 => b.input_counter(|n: &usize| BytesCount::new(*n as u64 * MULT[0])),
-                1 => b.input_counter(|n: &usize| CharsCount::new(*n as u64 * MULT[1])),
-                2 => b.input_counter(|n: &usize| CyclesCount::new(*n as u64 * MULT[2])),
-                _ => b.input_counter(|n: &usize| ItemsCount::new(*n as u64 * MULT[3])),
+                0 => b.input_counter(|x: &In| BytesCount::new(x.n as u64 * MULT[0])),
+                1 => b.input_counter(|x: &In| CharsCount::new(x.n as u64 * MULT[1])),
+                2 => b.input_counter(|x: &In| CyclesCount::new(x.n as u64 * MULT[2])),
+                _ => b.input_counter(|x: &In| ItemsCount::new(x.n as u64 * MULT[3])),
             };
         }
         for &k in &post {
@@ -249,11 +328,30 @@ fn run(line: &str) -> String {
             }
         })
         .collect();
+    // The tally rows each recorded sample's timed section must have produced (sum over its inputs).
+    let tal = if n == 0 {
+        "-".to_string()
+    } else {
+        (0..n)
+            .map(|j| {
+                let mut rows = [0u64; 8];
+                for t in 0..s {
+                    let v = if uniform { input_value(seed) } else { input_value(seed + j * s + t) };
+                    let r = rows_of(mode, v);
+                    for q in 0..8 {
+                        rows[q] += r[q];
+                    }
+                }
+                rows.iter().map(|x| x.to_string()).collect::<Vec<_>>().join(":")
+            })
+            .collect::<Vec<_>>()
+            .join(";")
+    };
     let out = match &dump.stats {
         Some(st) => stats_line(st),
         None => format!("nostats did_run={}", dump.did_run),
     };
-    format!("IN {} {} {} {} {} EXP {} OUT {}", dump.sample_size, d, a, c, u, exp.join("|"), out)
+    format!("IN {} {} {} {} {} EXP {} TAL {} OUT {}", dump.sample_size, d, a, c, u, exp.join("|"), tal, out)
 }
 
 fn stats(line: &str) -> String {
